@@ -765,6 +765,23 @@ func (h *Hist) randomEvent() string {
 				}
 			}
 			h.pods = keep
+			if r.chance(35) {
+				// … all but one: what is left either still counts (a static pod of the group) or does not (a DaemonSet pod)
+				h.podSeq++
+				t := true
+				q := &WPod{Name: fmt.Sprintf("left%d", h.podSeq), NS: "ns", Phase: "Running", NodeName: n.Name, Scheduled: &t, Annotations: map[string]string{},
+					Containers: [][2]int64{{50, 1 << 20}}, NodeSelector: map[string]string{}}
+				if o.Name != "default" {
+					q.NodeSelector = map[string]string{"grp": o.LabelValue}
+				}
+				if r.chance(60) {
+					q.Annotations["kubernetes.io/config.source"] = r.pick("file", "http")
+				} else {
+					q.OwnerKinds = []string{"DaemonSet"}
+				}
+				h.pods = append(h.pods, q)
+				return "drain-but-one"
+			}
 			return "drain"
 		}
 	case 19:
